@@ -151,3 +151,115 @@ class Link(object):
 
     def pipe(self, direction):
         return self.ab if direction == 'ab' else self.ba
+
+
+class Network(object):
+    ''' Simulated IP network for whole agents: listening sockets, connections made by socket.connect(). '''
+
+    def __init__(self):
+        self.listeners = {}     # (addr, port) -> NetSocket
+        self.links = []         # every connection ever made: dict(link=, a=(addr, port), b=(addr, port), t_ms=)
+        self.refused = []
+        self.local_addr = {}    # id(module facade) -> address its sockets connect from
+        self.auto_deliver = True
+
+    def facade(self, local_address):
+        ''' A stand-in for the ``socket`` module as seen by one host. '''
+        return _SocketModule(self, local_address)
+
+    def pump(self):
+        ''' Move everything in flight to the readers.  :return: True if something moved. '''
+        moved = False
+        for ent in self.links:
+            link = ent['link']
+            if link.ab.deliver() or link.ba.deliver():
+                moved = True
+        return moved
+
+
+class NetSocket(SimSocket):
+    ''' socket.socket() of a simulated host: unconnected at first, then a listener or one end of a Link. '''
+
+    def __init__(self, net, local_address, family):
+        SimSocket.__init__(self, None, None, None, (local_address, 0))
+        self.net = net
+        self.family = family
+        self.local_address = local_address
+        self.listening = False
+        self.backlog = []
+        self.bound = None
+
+    def bind(self, addr):
+        self.bound = (addr[0] or self.local_address, addr[1])
+        self._sockname = self.bound
+
+    def listen(self, _backlog=1):
+        key = self.bound
+        if key in self.net.listeners:
+            raise OSError(98, 'Address already in use')
+        self.listening = True
+        self.net.listeners[key] = self
+
+    def connect(self, addr):
+        addr = (addr[0], addr[1])
+        lsn = self.net.listeners.get(addr) or self.net.listeners.get(('0.0.0.0', addr[1]))
+        if lsn is None or lsn.closed:
+            self.net.refused.append(addr)
+            raise ConnectionRefusedError(111, 'Connection refused')
+        port = 40000 + len(self.net.links)
+        link = Link(addr_a=self.local_address, addr_b=addr[0], port_b=addr[1])
+        self.tx, self.rx = link.ab, link.ba
+        self._peername = addr
+        self._sockname = (self.local_address, port)
+        other = NetSocket(self.net, addr[0], self.family)
+        other.tx, other.rx = link.ba, link.ab
+        other._peername = (self.local_address, port)
+        other._sockname = addr
+        link.sock_a, link.sock_b = self, other
+        self.net.links.append(dict(link=link, a=self._sockname, b=addr, t_ms=simloop.CLOCK.now_ms))
+        lsn.backlog.append(other)
+
+    def accept(self):
+        if not self.backlog:
+            raise BlockingIOError(11, 'Resource temporarily unavailable')
+        sock = self.backlog.pop(0)
+        return sock, sock._peername
+
+    def shutdown(self, how):
+        if self.listening:
+            return
+        if self.tx is None:
+            raise OSError(107, 'Transport endpoint is not connected')
+        SimSocket.shutdown(self, how)
+
+    def close(self):
+        if self.listening:
+            self.closed = True
+            if self.net.listeners.get(self.bound) is self:
+                del self.net.listeners[self.bound]
+            for sock in self.backlog:
+                sock.close()
+            return
+        if self.tx is None:
+            self.closed = True
+            return
+        SimSocket.close(self)
+
+    def _sim_ready(self, cond):
+        if self.listening:
+            return bool(cond & IO_IN) and bool(self.backlog) and not self.closed
+        if self.tx is None:
+            return False
+        return SimSocket._sim_ready(self, cond)
+
+
+class _SocketModule(object):
+    def __init__(self, net, local_address):
+        self._net = net
+        self._local = local_address
+
+    def socket(self, family=_socket.AF_INET, _type=_socket.SOCK_STREAM, _proto=0):
+        return NetSocket(self._net, self._local, family)
+
+    def __getattr__(self, name):
+        return getattr(_socket, name)
